@@ -224,7 +224,45 @@ fn logical(f: &Feed) -> Result<Vec<(usize, Logical)>, String> {
 // ---------------------------------------------------------------------------------------------
 // stream generation
 
+fn props_of(p: &Pkt) -> Option<&rc::Props> {
+    Some(match p {
+        Pkt::Publish(x) => &x.props,
+        Pkt::Connect(x) => &x.props,
+        Pkt::ConnAck(x) => &x.props,
+        Pkt::PubAck(x) | Pkt::PubRec(x) | Pkt::PubRel(x) | Pkt::PubComp(x) => &x.props,
+        Pkt::Subscribe(x) => &x.props,
+        Pkt::Unsubscribe(x) => &x.props,
+        Pkt::SubAck(x) | Pkt::UnsubAck(x) => &x.props,
+        Pkt::Disconnect(x) | Pkt::Auth(x) => &x.props,
+        _ => return None,
+    })
+}
+
 fn valid_packet(ver: Ver, ch: &mut Choices, i: u32) -> Pkt {
+    let mut p = valid_packet_inner(ver, ch, i);
+    if ver == Ver::V5 && ch.chance(1, 5) {
+        // pad the property section with a User Property to a size at which its length prefix (a
+        // variable byte integer) changes width
+        if let Some(props) = props_of(&p) {
+            let mut tmp = Vec::new();
+            rc::put_props(&mut tmp, props);
+            let body = (1..=3usize).map(|pre| tmp.len() - pre).find(|b| match *b {
+                0..=127 => tmp.len() - *b == 1,
+                128..=16383 => tmp.len() - *b == 2,
+                _ => tmp.len() - *b == 3,
+            });
+            let target = *ch.pick(&[127usize, 126, 128, 129, 16_383, 16_382, 16_384, 16_385]);
+            if let Some(body) = body
+                && target >= body + 6
+            {
+                add_prop(&mut p, (38, PropVal::Pair("k".into(), "v".repeat(target - body - 6))));
+            }
+        }
+    }
+    p
+}
+
+fn valid_packet_inner(ver: Ver, ch: &mut Choices, i: u32) -> Pkt {
     match ch.choose(6) {
         0 => {
             let len = *ch.pick(&[0usize, 1, 5, 40, 127, 128, 300, 2000, 20_000]);
